@@ -36,6 +36,8 @@ Drop(f, ks) == [x \in (DOMAIN f) \ ks |-> f[x]]
 Accessed(td, key) == IF td.due < 0 THEN [due |-> now + T, recent |-> {}]
                      ELSE [td EXCEPT !.recent = @ \cup {key}]
 
+Accessed2(td, key) == LET a == Accessed(td, key) IN [a EXCEPT !.recent = @ \cup {key}]
+
 Init == /\ now = 0 /\ spool = << >> /\ cache = << >> /\ tdS = [due |-> -1, recent |-> {}]
         /\ tdC = [due |-> -1, recent |-> {}] /\ nreq = 0 /\ ninv = 0 /\ emit = << >> /\ obs = ObsInit
 
@@ -52,7 +54,8 @@ Block1(r, num, more, plen) ==
          Resp(code, blk) == Ev("tx", r, tok, code, "resp", 0, 0, blk, None, -1, -1, 0)
      IN IF num = 0
           THEN /\ spool' = Put(spool, key, plen)
-               /\ tdS' = Accessed(tdS, key)
+               \* __setitem__, and for a complete body the __getitem__ that returns it
+               /\ tdS' = IF more = 1 THEN Accessed(tdS, key) ELSE Accessed2(tdS, key)
                /\ IF more = 1
                     THEN /\ Step(<<rx, Resp(95, b1)>>) /\ UNCHANGED ninv
                     ELSE /\ ninv' = ninv + 1
@@ -67,7 +70,7 @@ Block1(r, num, more, plen) ==
           THEN /\ tdS' = Accessed(tdS, key)
                /\ Step(<<rx, Resp(IF FixGap THEN 136 ELSE 160, None)>>) /\ UNCHANGED <<spool, ninv>>
         ELSE /\ spool' = [spool EXCEPT ![key] = @ + plen]
-             /\ tdS' = Accessed(Accessed(tdS, key), key)
+             /\ tdS' = IF more = 1 THEN Accessed(tdS, key) ELSE Accessed2(tdS, key)
              /\ IF more = 1
                   THEN /\ Step(<<rx, Resp(95, b1)>>) /\ UNCHANGED ninv
                   ELSE /\ ninv' = ninv + 1
